@@ -41,6 +41,8 @@ func defineOne(env *rt.Env, id, src string, run bool, t *tally, bad *[]string) {
 		return
 	}
 	t.n++
+	progress.Add(1)
+	cur.Store(&src)
 	setCur(src)
 	type res struct {
 		task *kapacitor.Task
